@@ -68,6 +68,7 @@ class Extract:
         self.unit, self.file, self.impl, self.fn, self.uline = unit, file, impl, fn, uline
         self.rename = None
         self.contract = []      # [(text, uline)]
+        self.signature = []     # replacement signature (generic/trait plumbing the verifier cannot read), logged as S5
         self.loops = {}         # n -> [(text, uline)]
         self.closures = {}      # n -> [(text, uline)]
         self.injects = []       # dict(where, k, anchor, tag, lines)
@@ -96,6 +97,9 @@ class Extract:
         if self.rename:
             sig = re.sub(r"\bfn\s+" + re.escape(self.fn) + r"\b", "fn " + self.rename, sig, count=1)
         sig = " ".join(sig.split())  # one line; origin = first line of the signature
+        if self.signature:
+            self.log["rewrites"]["S5_signature_replaced"] = dict(old=sig, new=" ".join(t.strip() for t, _ in self.signature))
+            sig = " ".join(t.strip() for t, _ in self.signature)
         # ----- body: char-level rewrites keeping newline count
         body = src[ob:cb + 1]
         bm = msk[ob:cb + 1]
@@ -337,6 +341,8 @@ def parse_unit(path):
                 cur.rename = d.split()[1]
             elif d == "contract":
                 section = cur.contract
+            elif d == "signature":
+                section = cur.signature
             elif d.startswith("loop "):
                 section = cur.loops.setdefault(int(d.split()[1]), [])
             elif d.startswith("closure "):
